@@ -16,7 +16,7 @@
    map keys exclude the text func, which parser.Parse cannot accept as a key for the same reason). *)
 From Coq Require Import List String NArith ZArith Bool Arith.
 From EvyV Require Import Base FmtAst Format Pratt Parser ParserRules ParserScope ParserCursor FormatParse FormatParseListProofs
-  FormatParseStmtProofs FormatParseBlockProofs FormatParseProgProofs FormatParseAcceptProofs.
+  FormatParseStmtProofs FormatParseBlockProofs FormatParseProgProofs FormatParseAcceptProofs FormatParseSqueezeProofs.
 From EvyV.Gen Require Import Prec.
 Import ListNotations.
 Local Open Scope nat_scope.
@@ -55,6 +55,31 @@ Theorem C06_roundtrip_accepted_program_partial :
   parse B (combine (toks_of_pieces (fmt_prog fixed p)) poss) eof = Accept (body_trees false p).
 Proof. exact program_roundtrip_accepted. Qed.
 Print Assumptions C06_roundtrip_accepted_program_partial.
+
+(* ... and for ARBITRARY comment-free sources: [raw_trees p] is the tree parser.Parse builds for the
+   source the formatter tree p was exported from - one empty statement per blank line, anywhere, in any
+   number.  The judgements of the accepted parse do not look at empty statements
+   (FormatParseSqueezeProofs.raw_same: scope checker, structure rules, termination and return flags
+   agree on the raw and on the squeezed tree, for every statement form including func / on), so
+       the source is accepted with tree [raw_trees p]   ==>
+       the formatted text is accepted with tree [body_trees false p] = the raw tree with every run of
+       empty statements squeezed into one. *)
+Theorem C06_roundtrip_source_program_partial :
+  forall (B : benv), (forall s t n, b_tyerr B s t n = false) ->
+  forall (fixed : fixes) (p : list fstmt) (raw : list (token * position)) (eof0 : position) (poss : list position) (eof : position),
+  parse B raw eof0 = Accept (raw_trees p) -> fn_table B raw = builtin_table B ->
+  p <> [] -> eokb B (builtin_table B) (G0 B) p ->
+  List.length poss = List.length (toks_of_pieces (fmt_prog fixed p)) ->
+  parse B (combine (toks_of_pieces (fmt_prog fixed p)) poss) eof = Accept (body_trees false p).
+Proof. exact program_roundtrip_source. Qed.
+Print Assumptions C06_roundtrip_source_program_partial.
+
+Theorem C06_judgements_ignore_empty_statements :
+  forall p : list fstmt,
+  structure_ok (raw_trees p) = structure_ok (body_trees false p) /\
+  forall T, scope_prog T (raw_trees p) = scope_prog T (body_trees false p).
+Proof. exact prog_same. Qed.
+Print Assumptions C06_judgements_ignore_empty_statements.
 
 (* the derivation on its own: per-expression conditions + the two judgements give [poks] *)
 Theorem C06_side_conditions_from_judgements :
